@@ -32,8 +32,7 @@ use std::sync::atomic::{AtomicUsize, Ordering};
 #[derive(Clone, Debug)]
 struct Job {
     type_idx: usize,
-    part: usize,
-    parts: usize,
+    cfg: JobCfg,
     est: u64,
 }
 
@@ -46,34 +45,61 @@ fn leaf_strings(j: &J, out: &mut Vec<usize>) {
     }
 }
 
+/// rough cost of one round trip of a value of this type (scheduling only)
+fn per_value_cost(e: &TypeEntry) -> (u64, u64) {
+    let base = (e.base_json)();
+    let nodes = base.as_ref().map(jtree::count_nodes).unwrap_or(1) as u64;
+    let mut strs = Vec::new();
+    if let Some(b) = &base {
+        leaf_strings(b, &mut strs);
+    }
+    // curve points are by far the most expensive leaves to read back (subgroup checks)
+    let g1 = strs.iter().filter(|l| **l == 98).count() as u64;
+    let g2 = strs.iter().filter(|l| **l == 194).count() as u64;
+    (nodes, nodes + 80 * g1 + 250 * g2 + 20)
+}
+
+const JOB_TARGET: u64 = 6_000_000;
+
 /// Cuts the work into jobs. The estimate only decides how finely a type is sliced (by tape
 /// position); it never decides what is enumerated.
-fn plan(reg: &[TypeEntry], thorough: bool) -> Vec<Job> {
+fn plan(reg: &[TypeEntry], thorough: bool) -> (Vec<Job>, Vec<(u64, u64)>) {
     let mut jobs = Vec::new();
+    let mut costs = Vec::new();
     for (i, e) in reg.iter().enumerate() {
         let n = (e.tape_len)() as u64;
-        let base = (e.base_json)();
-        let nodes = base.as_ref().map(jtree::count_nodes).unwrap_or(1) as u64;
-        let mut strs = Vec::new();
-        if let Some(b) = &base {
-            leaf_strings(b, &mut strs);
-        }
-        // curve points are by far the most expensive leaves to read back (subgroup checks)
-        let g1 = strs.iter().filter(|l| **l == 98).count() as u64;
-        let g2 = strs.iter().filter(|l| **l == 194).count() as u64;
-        let per_value = nodes + 80 * g1 + 250 * g2 + 20;
+        let (nodes, per_value) = per_value_cost(e);
+        costs.push((nodes, per_value));
         let windows = thorough || n <= (core::QUICK_WINDOW_MAX_TAPE + core::TAPE_SLACK) as u64;
-        let tapes = n * if windows { 17 } else { 5 };
-        let est = tapes * per_value * 3 + (n / 6 + 1) * nodes * 14 * per_value / 2;
-        let target: u64 = if thorough { 12_000_000 } else { 4_000_000 };
-        let parts = (est.div_ceil(target)).clamp(1, n.max(1).min(512)) as usize;
+        let est = n * if windows { 17 } else { 5 } * per_value * 3 + (n / 6 + 1) * nodes * 14 * per_value / 2;
+        let parts = (est.div_ceil(JOB_TARGET)).clamp(1, n.max(1).min(512)) as usize;
         for part in 0..parts {
-            jobs.push(Job { type_idx: i, part, parts, est: est / parts as u64 });
+            jobs.push(Job { type_idx: i, cfg: JobCfg { thorough, part, parts, first: None }, est: est / parts as u64 });
         }
     }
-    // most expensive first; ties in registry order
-    jobs.sort_by(|a, b| b.est.cmp(&a.est).then(a.type_idx.cmp(&b.type_idx)).then(a.part.cmp(&b.part)));
+    sort_jobs(&mut jobs);
+    (jobs, costs)
+}
+
+/// second level (thorough tier): one group of jobs per shape-changing first write
+fn plan_second(firsts: &[(usize, (usize, Vec<u8>, usize))], costs: &[(u64, u64)]) -> Vec<Job> {
+    let mut jobs = Vec::new();
+    for (type_idx, (p, w, n)) in firsts {
+        let (nodes, per_value) = costs[*type_idx];
+        let span = n.saturating_sub(p + w.len()) as u64;
+        let est = span * 17 * per_value * 3 + (span / 6 + 1) * nodes * 14 * per_value / 2;
+        let parts = (est.div_ceil(JOB_TARGET)).clamp(1, span.max(1).min(512)) as usize;
+        for part in 0..parts {
+            jobs.push(Job { type_idx: *type_idx, cfg: JobCfg { thorough: true, part, parts, first: Some((*p, w.clone(), *n)) }, est: est / parts as u64 });
+        }
+    }
+    sort_jobs(&mut jobs);
     jobs
+}
+
+fn sort_jobs(jobs: &mut [Job]) {
+    // most expensive first; ties in registry order
+    jobs.sort_by(|a, b| b.est.cmp(&a.est).then(a.type_idx.cmp(&b.type_idx)).then(a.cfg.first.cmp(&b.cfg.first)).then(a.cfg.part.cmp(&b.cfg.part)));
 }
 
 // ---------------------------------------------------------------------------------------------
@@ -88,16 +114,13 @@ fn worker_main() {
     let stdout = std::io::stdout();
     for line in stdin.lock().lines() {
         let Ok(line) = line else { break };
-        let f: Vec<usize> = line.split_whitespace().filter_map(|x| x.parse().ok()).collect();
-        if f.len() != 4 {
-            break;
-        }
-        let cfg = JobCfg { thorough: f[3] == 1, part: f[1], parts: f[2] };
-        let acc = match mc::report::catch(|| (reg[f[0]].job)(&cfg)) {
+        let Ok(req) = serde_json::from_str::<Value>(&line) else { break };
+        let (Some(ti), Some(cfg)) = (req["type"].as_u64().map(|t| t as usize).filter(|t| *t < reg.len()), JobCfg::from_serde(&req["cfg"])) else { break };
+        let acc = match mc::report::catch(|| (reg[ti].job)(&cfg)) {
             Ok(a) => a,
             Err(p) => {
                 let mut a = Acc::default();
-                a.machinery.push(format!("job {} part {}/{} panicked in the harness: {p}", reg[f[0]].name, f[1], f[2]));
+                a.machinery.push(format!("job {} {cfg:?} panicked in the harness: {p}", reg[ti].name));
                 a
             }
         };
@@ -107,7 +130,10 @@ fn worker_main() {
     }
 }
 
-fn run_jobs(jobs: &[Job], thorough: bool, rep: &Report) -> Vec<Option<Acc>> {
+fn run_jobs(jobs: &[Job], rep: &Report) -> Vec<Option<Acc>> {
+    if jobs.is_empty() {
+        return Vec::new();
+    }
     let n_workers = std::env::var("C20_WORKERS")
         .ok()
         .and_then(|s| s.parse::<usize>().ok())
@@ -136,7 +162,7 @@ fn run_jobs(jobs: &[Job], thorough: bool, rep: &Report) -> Vec<Option<Acc>> {
                         break;
                     }
                     let j = &jobs[i];
-                    if writeln!(to, "{} {} {} {}", j.type_idx, j.part, j.parts, thorough as u8).and_then(|()| to.flush()).is_err() {
+                    if writeln!(to, "{}", json!({"type": j.type_idx, "cfg": j.cfg.to_serde()})).and_then(|()| to.flush()).is_err() {
                         rep.machinery_error(&format!("worker {w} does not take job {i}"));
                         break;
                     }
@@ -147,7 +173,7 @@ fn run_jobs(jobs: &[Job], thorough: bool, rep: &Report) -> Vec<Option<Acc>> {
                             None => rep.machinery_error(&format!("worker {w}: unreadable result of job {i}")),
                         },
                         _ => {
-                            rep.machinery_error(&format!("worker {w} died in job {i} (type index {} part {}/{})", j.type_idx, j.part, j.parts));
+                            rep.machinery_error(&format!("worker {w} died in job {i} (type index {} {:?})", j.type_idx, j.cfg));
                             break;
                         }
                     }
@@ -169,11 +195,12 @@ fn run(rep: &Report) {
     Python::initialize();
     rep.set_rule(&format!(
         "TYPES: every Rust type with a ToJsonDict/FromJsonDict impl (all #[streamable] protocol structs and enums, BLS elements, Bytes/BytesN/Program, chia-consensus SpendConditions/SpendBundleConditions/ConsensusConstants, chia-datalayer records, the integer/bool/String primitives and instantiations of Option, Vec, 2- and 3-tuples and fixed arrays); the list is compared with a source scan at run time. \
-         VALUES per type: the type's builder (derive(Arbitrary) of /repo; hand-written builders for chia-consensus, chia-datalayer, GTElement) driven by a tape of (consumed+{slack}) zero bytes; every tape with one byte changed (every position x {{01,02,7f,80,ff}}); every tape with one little-endian integer window of width {{2,4,8,16}} at every position set to all-ones / largest signed / smallest signed ({win}); plus hand-written letters (MIN/MAX/one of every integer width, strings that look like hex, long and empty byte strings, CLVM programs, ragged nested lists, tuples inside lists, v1 proofs of space x4 Option combinations, the 7 recorded valid v2 proofs, FullBlock v0 with generator+refs and v1 with buffer). Equal values (by Debug rendering) are run once. \
-         CORRUPTIONS: for the first value of every distinct JSON shape (keys, list lengths, leaf kinds) of every type and for every letter, at every node of the JSON tree one at a time: key deleted; null; string: last char removed, first digit removed, one byte fewer, one byte more, last char:='g', first digit:='G', without 0x, upper-case digits, \"0x\" alone; integer := each of {{0,1,2,-1}} + {{2^(k-1)-1, 2^(k-1), 2^k-1, 2^k, -2^(k-1), -2^(k-1)-1 : k=8,16,32,64,128}} (max, max+1, min, min-1 of every Rust integer type), value+0.5 as float, its decimal string; bool := 0,1,2; list: first / last element removed, last element duplicated, one element (null / 0 / \"0x00\") added to an empty list. \
+         VALUES per type: the type's builder (derive(Arbitrary) of /repo; hand-written builders for chia-consensus, chia-datalayer, GTElement) driven by a tape of (consumed+{slack}) zero bytes; every tape with one byte changed (every position x {{01,02,7f,80,ff}}); every tape with one little-endian integer window of width {{2,4,8,16}} at every position set to all-ones / largest signed / smallest signed ({win}){second}; plus hand-written letters (MIN/MAX/one of every integer width, strings that look like hex, long and empty byte strings, CLVM programs, ragged nested lists, tuples inside lists, v1 proofs of space x4 Option combinations, the 7 recorded valid v2 proofs, FullBlock v0 with generator+refs and v1 with buffer). Equal values (by Debug rendering) are run once. \
+         CORRUPTIONS: for the first value of every distinct JSON shape (keys, list lengths, leaf kinds) met in a job (job = type x slice of tape positions x first write) and for every letter, at every node of the JSON tree one at a time: key deleted; null (not for a struct without fields); string: last char removed, first digit removed, one byte fewer, one byte more, last char:='g', first digit:='G', without 0x, upper-case digits, \"0x\" alone; integer := each of {{0,1,2,-1}} + {{2^(k-1)-1, 2^(k-1), 2^k-1, 2^k, -2^(k-1), -2^(k-1)-1 : k=8,16,32,64,128}} (max, max+1, min, min-1 of every Rust integer type), value+0.5 as float, its decimal string; bool := 0,1,2; list: first / last element removed, last element duplicated, one element (null / 0 / \"0x00\") added to an empty list. \
          distinct = distinct (type, value) pairs",
         slack = core::TAPE_SLACK,
-        win = if thorough { "all types" } else { "quick tier: only builders consuming <= 96 tape bytes" }
+        win = if thorough { "all types" } else { "quick tier: only builders consuming <= 160 tape bytes" },
+        second = if thorough { "; second level: behind every such one-write tape that produced a new JSON shape (tape re-sized to what the builder then consumes), every second write of the same alphabet at every later position" } else { "" }
     ));
     rep.assume("equality of values is the PartialEq of /repo's types; byte encoding and hash are Streamable::to_bytes / Streamable::hash of /repo");
     rep.assume("from_json_dict / to_json_dict are called through the traits ToJsonDict / FromJsonDict, which is what the generated Python methods call; the classmethod wrapper itself (from_parent for subclasses) is not exercised");
@@ -181,8 +208,24 @@ fn run(rep: &Report) {
     rep.assume("CPython 3.11 json module and the pyo3 0.29 conversions between Python and Rust integers / strings are trusted");
 
     let reg = registry();
-    let jobs = plan(&reg, thorough);
-    let results = run_jobs(&jobs, thorough, rep);
+    let (mut jobs, costs) = plan(&reg, thorough);
+    let mut results = run_jobs(&jobs, rep);
+    if thorough {
+        // second level: behind every first write that produced a new JSON shape
+        let mut firsts: Vec<(usize, (usize, Vec<u8>, usize))> = Vec::new();
+        for (job, acc) in jobs.iter().zip(&results) {
+            if let Some(acc) = acc {
+                firsts.extend(acc.firsts.iter().cloned().map(|f| (job.type_idx, f)));
+            }
+        }
+        firsts.sort();
+        firsts.dedup();
+        rep.extra("second_level_first_writes", json!(firsts.len()));
+        let second = plan_second(&firsts, &costs);
+        let r2 = run_jobs(&second, rep);
+        jobs.extend(second);
+        results.extend(r2);
+    }
 
     let mut per_type: BTreeMap<usize, Acc> = BTreeMap::new();
     let mut int_ranges: BTreeMap<String, u64> = BTreeMap::new();
@@ -190,7 +233,7 @@ fn run(rep: &Report) {
     let mut samples: Vec<(usize, Value)> = Vec::new();
     for (job, acc) in jobs.iter().zip(results) {
         let Some(acc) = acc else {
-            rep.machinery_error(&format!("no result for type {} part {}/{}", reg[job.type_idx].name, job.part, job.parts));
+            rep.machinery_error(&format!("no result for type {} {:?}", reg[job.type_idx].name, job.cfg));
             continue;
         };
         rep.evals(acc.evals);
